@@ -5,7 +5,7 @@ import copy
 
 import numpy as np
 
-from ..core import (Violation, Reject, SimCrash, HarnessError, elem_flat,
+from ..core import (Violation, Reject, SimCrash, HarnessError, elem_flat, assign_flat,
                     elem_digest, np_rng, derive)
 from .. import seams, kkt
 from .. import problems as P
@@ -39,6 +39,10 @@ def generate(rng, tier):
     if w == 'cg':
         plan['config'] = SI.gen_instance(rng, 'cg')
         plan['niter'] = rng.randint(2, 12)
+        if rng.random() < 0.3:
+            # a restart next to the solution (seed z12): the start residual
+            # is tiny relative to rhs but not zero
+            plan['near'] = 10.0 ** rng.randint(-13, -3)
     elif w in ('cgn', 'landweber'):
         plan['config'] = SI.gen_instance(rng, 'cg_normal' if w == 'cgn'
                                          else 'landweber')
@@ -595,6 +599,15 @@ def _cg(plan, ctx):
     cond = ev[-1] / ev[0]
     N = plan['niter']
     st = inst.fresh_state()
+    if plan.get('near'):
+        # x0 = x* + near * |x*| * (random direction), written in place
+        d0 = elem_flat(st['x']) - xs
+        nd = np.linalg.norm(d0)
+        if nd == 0:
+            raise Reject('start is the solution')
+        assign_flat(st['x'], xs + plan['near'] * max(np.linalg.norm(xs), 1.0)
+                      * d0 / nd)
+        ctx.fired('x0-near-solution')
 
     def energy(x):
         e = elem_flat(x) - xs
@@ -615,10 +628,32 @@ def _cg(plan, ctx):
                 raise
     _count(ctx, fired)
     ctx.step(N)
+    if len(seq) == 1 and N >= 1:
+        # returned without a single step: only legitimate when there is
+        # nothing left to reduce, i.e. the residual of the start value (as
+        # the harness computes it from the matrix) is at rounding level
+        x0v = elem_flat(st['x'])
+        res = np.linalg.norm(rhs - Bm @ x0v)
+        lvl = 1e-12 * (np.linalg.norm(Bm, 2) * np.linalg.norm(x0v) +
+                       np.linalg.norm(rhs))
+        ctx.probe('cg-returned-without-step')
+        if res > lvl:
+            raise Violation(
+                'C12', 'C12/cg-no-step',
+                'cg returned without performing a step although the start '
+                'residual {:.3g} is {:.3g} x rounding level (energy error '
+                '{:.3g} left as it is; cond {:.3g}); instance {}'.format(
+                    res, res / lvl * 1e-12 / 2.2e-16, seq[0], cond,
+                    inst.tags))
     floor = 1e-24 * cond ** 2 * max(seq[0], 1e-300) + 1e-300
+    if plan.get('near'):
+        # the error is already small relative to the solution: rounding level
+        # is relative to |x*|, not to the start error
+        floor += 1e-24 * cond ** 2 * float(np.sum(w * xs * (Bm @ xs)))
     nontrivial = _mono_check(seq, 'cg', 'energy-error', floor, inst.tags, ctx)
     n = len(xs)
-    if cond <= 1e3 and len(seq) - 1 >= n and len(seq) - 1 == N:
+    if cond <= 1e3 and len(seq) - 1 >= n and len(seq) - 1 == N and \
+            not plan.get('near'):
         # exact termination holds in exact arithmetic; with clustered
         # eigenvalues rounding leaves up to ~1e-6 of the initial error (seen:
         # 1.3e-6 at cond 932), a wrong recurrence leaves O(1)
